@@ -394,7 +394,7 @@ func runStop(c *StopCase) *StopObs {
 			deadline := time.Now().Add(time.Second)
 			for time.Now().Before(deadline) {
 				if st, ok := stRef.Load().(*attemptState); ok {
-					if g, ok := sched.Find(sched.Probe(), int(atomic.LoadInt64(&st.streamGID))); ok && g.State == "IO wait" {
+					if g, ok := sched.Find(sched.Probe(), int(st.streamGID.Load())); ok && g.State == "IO wait" {
 						break
 					}
 				}
@@ -410,7 +410,7 @@ func runStop(c *StopCase) *StopObs {
 	at.fallback = stopBound
 	at.fallbackCancel = cancel
 	at.onStall = func(st *attemptState) {
-		state, proven := blockedProof(int(atomic.LoadInt64(&st.streamGID)), st.baseline)
+		state, proven := blockedProof(int(st.streamGID.Load()), st.baseline)
 		if proven {
 			obs.Stalled = "Stream has not returned and is parked: " + state
 		} else {
@@ -421,11 +421,11 @@ func runStop(c *StopCase) *StopObs {
 		// Error() must return, three times in a row
 		for i := 0; i < 3 && obs.ErrorBlocked == ""; i++ {
 			done := make(chan error, 1)
-			var gid int64
+			var gid atomic.Int64
 			var wg sync.WaitGroup
 			wg.Add(1)
 			go func() {
-				atomic.StoreInt64(&gid, int64(sched.Self()))
+				gid.Store(int64(sched.Self()))
 				wg.Done()
 				done <- ss.s.Error()
 			}()
@@ -434,7 +434,7 @@ func runStop(c *StopCase) *StopObs {
 			case e := <-done:
 				obs.ErrorResults = append(obs.ErrorResults, e)
 			case <-time.After(stopBound):
-				state, proven := blockedProof(int(atomic.LoadInt64(&gid)), st.baseline)
+				state, proven := blockedProof(int(gid.Load()), st.baseline)
 				if proven {
 					obs.ErrorBlocked = fmt.Sprintf("Error() call %d does not return: %s", i+1, state)
 				} else if obs.Inconclusive == "" {
